@@ -52,7 +52,7 @@ inductive Forest where
 structure Tree where
   root : Info
   children : Forest
-  deriving Repr
+  deriving Repr, DecidableEq
 
 def Tree.toForest (t : Tree) : Forest := .node t.root t.children .nil
 
